@@ -153,6 +153,72 @@ fn chain_rule_programs() -> Vec<Prog> {
     out
 }
 
+/// min / max whose inactive branch has an undefined (0 x inf, inf - inf) derivative at the evaluation point: the
+/// expression is differentiable there (it equals its active, affine branch in a neighbourhood), so the partial
+/// derivatives are those of the active branch.  Returns (program, the active branch alone, evaluation point).
+fn singular_inactive_programs() -> Vec<(Prog, Prog, [f32; 3])> {
+    use vharness::tapes::GOp;
+    let affine = |out: i64, base: i64, shift: f32| -> Vec<GOp> {
+        vec![
+            GOp::new(4, "Mul", base, 0, -1, bits(0.3)), GOp::new(4, "Mul", base + 1, 1, -1, bits(0.2)), GOp::new(4, "Mul", base + 2, 2, -1, bits(-0.1)),
+            GOp::new(6, "Add", base + 3, base, base + 1, 0), GOp::new(6, "Add", base + 4, base + 3, base + 2, 0),
+            GOp::new(4, "Add", out, base + 4, -1, bits(shift)),
+        ]
+    };
+    let finish = |mut ops: Vec<GOp>, result: i64| -> Prog {
+        ops.reverse();
+        let mut ssa = vec![GOp::new(0, "Output", -1, result, 0, 0)];
+        ssa.extend(ops);
+        for k in (0..3).rev() {
+            ssa.push(GOp::new(1, "Input", k, k, -1, 0));
+        }
+        Prog { ssa, nvars: 3 }
+    };
+    // singular branches, result in slot 34; (ops, the branch is below the affine one (max) or above it (min), point)
+    let cyl = vec![GOp::new(3, "Square", 30, 1, -1, 0), GOp::new(3, "Square", 31, 2, -1, 0), GOp::new(6, "Add", 32, 30, 31, 0),
+                   GOp::new(3, "Sqrt", 33, 32, -1, 0), GOp::new(4, "Add", 34, 33, -1, bits(-1.0))];
+    let absx = vec![GOp::new(3, "Square", 30, 0, -1, 0), GOp::new(3, "Sqrt", 33, 30, -1, 0), GOp::new(4, "Add", 34, 33, -1, bits(-1.0))];
+    let lnsq = vec![GOp::new(3, "Square", 30, 1, -1, 0), GOp::new(3, "Ln", 34, 30, -1, 0)];
+    let recip = vec![GOp::new(3, "Square", 30, 1, -1, 0), GOp::new(3, "Recip", 34, 30, -1, 0)];
+    let mut out = vec![];
+    for (branch, name, pts) in [(cyl, "Max", [[0.5f32, 0.0, 0.0], [-1.0, 0.0, 0.0]]), (absx, "Max", [[0.0, 0.7, -0.4], [0.0, -1.0, 1.0]]),
+                                (lnsq, "Max", [[0.5, 0.0, 0.3], [1.0, 0.0, -2.0]]), (recip, "Min", [[0.5, 0.0, 0.3], [-1.5, 0.0, 1.0]])] {
+        for pt in pts {
+            for swap in [false, true] {
+                let mut ops = affine(10, 3, 2.0);
+                let alone = finish(ops.clone(), 10);
+                ops.extend(branch.clone());
+                ops.push(if swap { GOp::new(6, name, 40, 34, 10, 0) } else { GOp::new(6, name, 40, 10, 34, 0) });
+                out.push((finish(ops, 40), alone, pt));
+            }
+        }
+    }
+    out
+}
+
+fn singular_inactive(cx: &mut Cx) {
+    for (p, alone, pt) in singular_inactive_programs() {
+        let rin: Vec<D> = (0..3).map(|k| { let mut d = [0.0; 3]; d[k] = 1.0; D { v: pt[k] as f64, d } }).collect();
+        let r = dual::eval(&alone.ssa, &rin);
+        let enc: Vec<Value> = r.outs.iter().map(|o| {
+            let mut e = vec![json!(encl(o.v, 1.0e-4 * o.v.abs() + 1.0e-4))];
+            for k in 0..3 { e.push(json!(encl(o.d[k], 2.0e-3 * o.d[k].abs() + 2.0e-4))); }
+            json!(e)
+        }).collect();
+        let inputs: Vec<Grad> = (0..3).map(|k| { let mut d = [0.0f32; 3]; d[k] = 1.0; Grad::new(pt[k], d[0], d[1], d[2]) }).collect();
+        let mut got = serde_json::Map::new();
+        if let Ok(f) = vm_fn::<255>(&p) { got.insert("vm".into(), json!(grads_at(&f, &inputs, 1).unwrap_or_default())); }
+        if let Ok(f) = jit_fn(&p) { got.insert("jit".into(), json!(grads_at(&f, &inputs, 1).unwrap_or_default())); }
+        if let Ok(sy) = symbolic(&p, &pt) {
+            got.insert("symbolic".into(), json!(sy.iter().map(|o| o.iter().map(|v| bits(*v)).collect::<Vec<_>>()).collect::<Vec<_>>()));
+        }
+        let j = json!({"ev": "whole", "id": cx.id, "nout": 1, "enc": enc, "got": got, "mat": false, "family": "singular-inactive-branch",
+            "ssa": ops_json(&p.ssa), "in": inputs.iter().map(gbits).collect::<Vec<_>>()});
+        writeln!(cx.w, "{j}").unwrap();
+        cx.id += 1;
+    }
+}
+
 use vharness::ctxb::prog_to_ctx;
 
 fn symbolic(p: &Prog, pt: &[f32]) -> Result<Vec<[f32; 4]>, String> {
@@ -311,6 +377,20 @@ fn main() {
         if let Ok(f) = jit_fn(&p) { nodes(&mut cx, "jit", &f, &p, &map, &inputs); }
         count += 1;
     }
+    // directed families (same immediate around every opcode; opcodes at rounding / domain boundaries)
+    for (p0, mode, _) in pgen::directed_programs() {
+        let (p, map) = export_all_slots(&p0);
+        for rep in 0..2 {
+            let inputs: Vec<Grad> = (0..p.nvars).map(|j| {
+                let s = seeds(&mut rng, false, j);
+                let v = if mode == Mode::Boundary && rep == 1 { *rng.pick(&pgen::BOUNDARY) } else { rng.range(-3.0, 3.0) };
+                Grad::new(v, s[0], s[1], s[2])
+            }).collect();
+            if let Ok(f) = vm_fn::<255>(&p) { nodes(&mut cx, "vm", &f, &p, &map, &inputs); }
+            if let Ok(f) = jit_fn(&p) { nodes(&mut cx, "jit", &f, &p, &map, &inputs); }
+        }
+        count += 1;
+    }
     // B: exact programs
     for (pi, ap) in aps.iter().enumerate().step_by(if quick { 4 } else { 1 }) {
         let mut inst = Inst::new(seed.wrapping_mul(223).wrapping_add(pi as u64), Mode::ZSmooth, 3);
@@ -337,6 +417,8 @@ fn main() {
             whole(&mut cx, &p, &mut rng, rep % 4 == 3);
         }
     }
+    // F: min / max with a singular inactive branch
+    singular_inactive(&mut cx);
     let n = cx.id;
     file.flush().unwrap();
     eprintln!("c05: {n} records ({count} node programs)");
